@@ -22,7 +22,7 @@ def chunked(bs):
         j = i
         while j < n and bs[j] == bs[i]:
             j += 1
-        if j - i >= 24:
+        if j - i >= 48:
             if lit:
                 out.append(hx(lit))
                 lit = []
